@@ -86,8 +86,7 @@ class C18(CheckBase):
         data = bytes(c07.mutate(ic, data, bounds))
         name = "img." + ic["ext"]
         if ic["gz"]:
-            import gzip
-            data = gzip.compress(data, 1, mtime=0)
+            data = c07.compress_image(ic, data)
             name += ".gz"
         nm = "F"
         try:
